@@ -100,12 +100,14 @@ func (pdb *PebbleKV) View(u func(it kvi.KVIterator) error) error {
 	return err
 }
 
+// pebbleTransaction collects the writes of one Update in an indexed batch:
+// reads see the database with the writes made so far applied on top
 type pebbleTransaction struct {
-	db *pebble.DB
+	batch *pebble.Batch
 }
 
 func (ptx pebbleTransaction) HasKey(id []byte) bool {
-	_, c, err := ptx.db.Get(id)
+	_, c, err := ptx.batch.Get(id)
 	if err != nil {
 		return false
 	}
@@ -114,7 +116,7 @@ func (ptx pebbleTransaction) HasKey(id []byte) bool {
 }
 
 func (ptx pebbleTransaction) Get(id []byte) ([]byte, error) {
-	v, c, err := ptx.db.Get(id)
+	v, c, err := ptx.batch.Get(id)
 	if err != nil {
 		return nil, err
 	}
@@ -124,24 +126,24 @@ func (ptx pebbleTransaction) Get(id []byte) ([]byte, error) {
 }
 
 func (ptx pebbleTransaction) Set(id []byte, val []byte) error {
-	return ptx.db.Set(id, val, nil)
+	return ptx.batch.Set(id, val, nil)
 }
 
 // Delete removes key `id` from the kv store
 func (ptx pebbleTransaction) Delete(id []byte) error {
-	return ptx.db.Delete(id, nil)
+	return ptx.batch.Delete(id, nil)
 }
 
 func (ptx pebbleTransaction) View(u func(it kvi.KVIterator) error) error {
-	it := ptx.db.NewIter(&pebble.IterOptions{})
-	pit := &pebbleIterator{ptx.db, it, true, nil, nil}
+	it := ptx.batch.NewIter(&pebble.IterOptions{})
+	pit := &pebbleIterator{ptx.batch, it, true, nil, nil}
 	err := u(pit)
 	it.Close()
 	return err
 }
 
 type pebbleIterator struct {
-	db      *pebble.DB
+	db      pebble.Reader
 	iter    *pebble.Iterator
 	forward bool
 	key     []byte
@@ -217,10 +219,15 @@ func (pit *pebbleIterator) Valid() bool {
 }
 
 // Update runs an alteration transaction of the kvstore. Pebble doesn't
-// actually provide transactions, so this is just filling in as a wrapper function
+// actually provide transactions: the writes are collected in an indexed batch,
+// which is committed atomically if `u` succeeds and dropped if it fails
 func (pdb *PebbleKV) Update(u func(tx kvi.KVTransaction) error) error {
-	ptx := pebbleTransaction{pdb.db}
-	return u(ptx)
+	batch := pdb.db.NewIndexedBatch()
+	defer batch.Close()
+	if err := u(pebbleTransaction{batch}); err != nil {
+		return err
+	}
+	return batch.Commit(nil)
 }
 
 type pebbleBulkWrite struct {
@@ -256,7 +263,11 @@ func (pdb *PebbleKV) BulkWrite(u func(tx kvi.KVBulkWrite) error) error {
 	batch := pdb.db.NewBatch()
 	ptx := &pebbleBulkWrite{pdb.db, batch, nil, nil, 0}
 	err := u(ptx)
-	batch.Commit(nil)
+	if err != nil {
+		batch.Close()
+		return err
+	}
+	err = batch.Commit(nil)
 	batch.Close()
 	if ptx.lowest != nil && ptx.highest != nil {
 		pdb.db.Compact(ptx.lowest, ptx.highest, true)
